@@ -351,7 +351,7 @@ def batch_eval(tag, groups, shards=8):
     out = [[] for _ in groups]
     if not exprs:
         return out
-    res = common.coq_eval(tag, IMPORTS + nm.prelude(), exprs, shard_size=max(1, (len(exprs) + shards - 1) // shards))
+    res = common.coq_eval(tag, IMPORTS + nm.prelude(), exprs, shard_size=max(1, (len(exprs) + shards - 1) // shards), timeout=3000)
     for g, r in zip(owner, res):
         out[g] += r if isinstance(r, list) else [r]
     return out
@@ -400,7 +400,8 @@ def evaluate(ctx, cases, with_model=True):
             "true" if c["verify_trust"] else "false",
             "None" if c["status"] is None else "(Some " + coq_list([nm.ref(x) for x in c["status"]]) + ")")
         mk_logk = lambda nm, c: "log_kind " + nm.ref(c["code"])
-        rf, rc, rl, rk = batch_eval("C04", [(mk_full, full, 1), (mk_compact, compact, 500), (mk_legacy, legacy, 200), (mk_logk, logk, 200)])
+        rf, rc, rl, rk = batch_eval("C04", [(mk_full, full, 1), (mk_compact, compact, 500), (mk_legacy, legacy, 200), (mk_logk, logk, 200)],
+                                    shards=8 if len(cases) < 20000 else 16)
         for c, r in zip(full, rf):
             model[c["id"]] = (r[0], r[0], opt_state(r[2]), conv_results(r[1]))
         for c, r in zip(compact, rc):
